@@ -71,10 +71,14 @@ def make_batch(ad: Adapter, ctx, n: int, B: int) -> List[dict]:
 
 
 def compare_trace(ctx, ad: Adapter, inst: dict, actions: List[int], masks: List[str], done: List[int],
-                  reply: str, what: str) -> Dict[str, str]:
+                  reply: str, what: str, trace: bool = True) -> Dict[str, str]:
+    """Parse the driver's reply; with `trace=True` compare the mask/done trace of the model with the
+    real one (only the properties whose theorems speak about masks do that)."""
     f = parse_fields(reply)
     if "masks" not in f:
         ctx.disagreement(f"{ad.name}: driver error", {"reply": reply, "inst": inst, "actions": actions})
+        return f
+    if not trace:
         return f
     m_model = f["masks"].split(",")
     d_model = [int(c) for c in f["done"]]
@@ -94,10 +98,23 @@ def compare_trace(ctx, ad: Adapter, inst: dict, actions: List[int], masks: List[
     return f
 
 
-def run_batch(ctx, ad: Adapter, env, insts: List[dict], extra_pad: int = 0, forced=None):
+class EpisodeFailed(Exception):
+    pass
+
+
+def run_batch(ctx, ad: Adapter, env, insts: List[dict], extra_pad: int = 0, forced=None, nonterm_is_violation=False):
+    """Drive the real env; an episode that does not finish within a generous cap raises
+    `EpisodeFailed` (callers skip the case); it is a violation only for the termination property."""
     td0 = ad.to_td(insts)
-    ep = run_episode(env, td0, uniform_chooser(ctx.rng), extra_pad=extra_pad, forced=forced,
-                     max_steps=20 * (max(ad.n_of(i) for i in insts) + 2) + 50)
+    try:
+        ep = run_episode(env, td0, uniform_chooser(ctx.rng), extra_pad=extra_pad, forced=forced,
+                         max_steps=20 * (max(ad.n_of(i) for i in insts) + 2) + 50)
+    except RuntimeError as e:
+        if nonterm_is_violation:
+            ctx.violation(f"{ad.name}:no-termination", f"real env: {e}", {"insts": insts, "forced": forced})
+        else:
+            ctx.count(f"{ad.name}.nonterminating-episode-skipped")
+        raise EpisodeFailed(str(e))
     return td0, ep
 
 
@@ -112,7 +129,11 @@ def check_feasibility(ctx, ad: Adapter, episodes_quick: int = 24, episodes_thoro
         n = ctx.rng.choice(ad.sizes(ctx.tier))
         B = ctx.rng.choice([1, 2, 4, 6])
         insts = make_batch(ad, ctx, n, B)
-        td0, ep = run_batch(ctx, ad, env, insts)
+        try:
+            td0, ep = run_batch(ctx, ad, env, insts)
+        except EpisodeFailed:
+            done_eps += B
+            continue
         if ep.empty_mask_rows:
             ctx.violation(f"{ad.name}:dead-end", "all-False mask row while the batch is running",
                           {"inst": insts[ep.empty_mask_rows[0][0]], "actions": ep.actions[ep.empty_mask_rows[0][0]]})
@@ -144,9 +165,8 @@ def check_termination(ctx, ad: Adapter, episodes_quick: int = 24, episodes_thoro
         insts = make_batch(ad, ctx, n, B)
         pad = ctx.rng.choice([0, 0, 1, 3])
         try:
-            td0, ep = run_batch(ctx, ad, env, insts, extra_pad=pad)
-        except RuntimeError as e:
-            ctx.violation(f"{ad.name}:no-termination", str(e), {"insts": insts})
+            td0, ep = run_batch(ctx, ad, env, insts, extra_pad=pad, nonterm_is_violation=True)
+        except EpisodeFailed:
             done_eps += B
             continue
         lines = [ad.line("episode", insts[r], ep.actions[r]) for r in range(B)]
@@ -192,7 +212,11 @@ def check_reward(ctx, ad: Adapter, episodes_quick: int = 24, episodes_thorough: 
         n = ctx.rng.choice(ad.sizes(ctx.tier))
         B = ctx.rng.choice([1, 2, 4])
         insts = make_batch(ad, ctx, n, B)
-        td0, ep = run_batch(ctx, ad, env, insts)
+        try:
+            td0, ep = run_batch(ctx, ad, env, insts)
+        except EpisodeFailed:
+            done_eps += B
+            continue
         acts = rl.actions_tensor(ep)
         try:
             real = ad.real_reward_ticks(env, ep.td, acts)
@@ -204,7 +228,7 @@ def check_reward(ctx, ad: Adapter, episodes_quick: int = 24, episodes_thorough: 
         lines = [ad.line("episode", insts[r], ep.actions[r]) for r in range(B)]
         replies = ctx.driver.ask_many(lines)
         for r in range(B):
-            f = compare_trace(ctx, ad, insts[r], ep.actions[r], ep.masks[r], ep.done[r], replies[r], "C03 stream")
+            f = compare_trace(ctx, ad, insts[r], ep.actions[r], ep.masks[r], ep.done[r], replies[r], "C03 stream", trace=False)
             ctx.case((ad.name, repr(insts[r]), tuple(ep.actions[r])), nontrivial=real[r] != 0)
             ctx.count(f"{ad.name}.n={n}")
             if "reward" in f and int(f["reward"]) != real[r]:
@@ -233,7 +257,10 @@ def check_batch_independence(ctx, ad: Adapter, groups_quick: int = 8, groups_tho
         if ctx.rng.random() < 0.4:  # copies of itself among the batch-mates
             insts[ctx.rng.randrange(B)] = insts[0]
         pad = ctx.rng.choice([0, 1, 2, 4])
-        td0, ep = run_batch(ctx, ad, env, insts, extra_pad=pad)
+        try:
+            td0, ep = run_batch(ctx, ad, env, insts, extra_pad=pad)
+        except EpisodeFailed:
+            continue
         acts = rl.actions_tensor(ep)
         try:
             rew_b = ad.real_reward_ticks(env, ep.td, acts)
@@ -250,7 +277,10 @@ def check_batch_independence(ctx, ad: Adapter, groups_quick: int = 8, groups_tho
             d = ep.done[r]
             fin = d.index(1) if 1 in d else len(ep.actions[r])
             solo_actions = ep.actions[r][:fin]
-            td1, ep1 = run_batch(ctx, ad, env, [insts[r]], forced=[solo_actions])
+            try:
+                td1, ep1 = run_batch(ctx, ad, env, [insts[r]], forced=[solo_actions])
+            except EpisodeFailed:
+                continue
             ctx.case((ad.name, repr(insts[r]), tuple(ep.actions[r]), B, r), nontrivial=B > 1)
             ctx.count(f"{ad.name}.B={B}")
             if fin < len(ep.actions[r]):
@@ -380,7 +410,11 @@ def check_checker(ctx, ad: Adapter, episodes_quick: int = 24, episodes_thorough:
         n = ctx.rng.choice(ad.sizes(ctx.tier))
         B = ctx.rng.choice([1, 2, 4])
         insts = make_batch(ad, ctx, n, B)
-        td0, ep = run_batch(ctx, ad, env, insts, extra_pad=ctx.rng.choice([0, 0, 2]))
+        try:
+            td0, ep = run_batch(ctx, ad, env, insts, extra_pad=ctx.rng.choice([0, 0, 2]))
+        except EpisodeFailed:
+            done_eps += B
+            continue
         cases = []  # (inst, label, actions)
         for r in range(B):
             cases.append((insts[r], "mask-generated", ep.actions[r]))
